@@ -17,7 +17,7 @@
 (* before the next action (the driver flushes), so every state is a        *)
 (* quiescent point and the property is the invariant WalletFollows.        *)
 (***************************************************************************)
-EXTENDS Integers, Sequences, FiniteSets, TLC, Json
+EXTENDS Integers, Sequences, FiniteSets, TLC, Json, IOUtils
 
 CONSTANTS
     Txs,        \* wallet-relevant transactions (independent receipts), e.g. {1,2}
@@ -283,6 +283,11 @@ StaleIgnored ==
 
 ----------------------------------------------------------------------------
 View      == state
-EmitStep  == PrintT(<<"TRACE", ToJson([steps |-> hist', exp |-> Obs'])>>)
+\* Emission may be sampled inside TLC (the check sets VERIF_EMIT_EVERY / VERIF_EMIT_OFFSET): one behaviour per
+\* EmitEvery generated transitions instead of one per transition - printing dominates the exploration time.
+EmitEvery  == IF "VERIF_EMIT_EVERY" \in DOMAIN IOEnv THEN atoi(IOEnv.VERIF_EMIT_EVERY) ELSE 1
+EmitOffset == IF "VERIF_EMIT_OFFSET" \in DOMAIN IOEnv THEN atoi(IOEnv.VERIF_EMIT_OFFSET) ELSE 0
+Sampled    == EmitEvery <= 1 \/ TLCGet("generated") % EmitEvery = EmitOffset % EmitEvery
+EmitStep  == Sampled => PrintT(<<"TRACE", ToJson([steps |-> hist', exp |-> Obs'])>>)
 EmitFull  == (Len(hist) >= MaxHist) => PrintT(<<"TRACE", ToJson([steps |-> hist])>>)
 =============================================================================
